@@ -27,7 +27,9 @@ CONSTANTS NC,          \* connect() coroutine instances (1..NU are user calls, t
           NU,
           MaxConn,     \* connection attempts the gateway sees
           MaxRefuse, MaxFeed, MaxEof,
-          SlowSet      \* the states ("C", "D", "X") whose status callback suspends; the others return at once
+          SlowSet,     \* the states ("C", "D", "X") whose status callback suspends; the others return at once
+          CfgWrite     \* TRUE: the serial client, whose connect attempt writes a configuration packet to the freshly
+                       \* opened port (WaveShareNmea2000Gateway._connect_impl); a failing write fails the attempt
 
 Conns == 1..MaxConn
 Insts == 1..NC
@@ -145,6 +147,23 @@ COpenFailed(i) ==
   /\ Emit(<<E("OpenResult", st, now, cconn[i], "", 0, "refuse")>>)
   /\ UNCHANGED <<st, lock, cconn, cs, nconn, writer, rpc, rcancel, rconn, rwake, avail, q, ppc, pcancel, clpc, clwake,
                  now, refusals, feeds, eofs, spawned>>
+
+\* the serial client only: the port opened, but the configuration write (or its drain()) raises.  The attempt fails like a
+\* refused one - counted, backed off, retried (or given up once CLOSED is seen) - after shutting the port it had just
+\* opened; the client keeps pointing at that port (self.writer) until the next successful attempt replaces it.
+\* (Without the shutting TLC finds AllShut violated in MC_Client_serial: close() returns while the open is in flight,
+\*  the port opens, the write fails, the attempt gives up - and the port stays open for good.  Repository fix d5d493c.)
+CCfgFail(i) ==
+  /\ UNCHANGED sendvars
+  /\ CfgWrite /\ cpc[i] = "opening" /\ cs[cconn[i]] \in {"open", "eof"}
+  /\ refusals < MaxRefuse /\ refusals' = refusals + 1
+  /\ writer' = cconn[i] /\ cs' = [cs EXCEPT ![cconn[i]] = "shut"]
+  /\ ck' = [ck EXCEPT ![i] = @ + 1] /\ cpc' = [cpc EXCEPT ![i] = "backoff"]
+  /\ cwake' = [cwake EXCEPT ![i] = now + Delay(ck[i] + 1)]
+  /\ Emit(<<E("OpenResult", st, now, cconn[i], "", 0, "accept"), E("WriteError", st, now, 0, "", cconn[i], ""),
+            E("WriterClose", st, now, 0, "", cconn[i], "")>>)
+  /\ UNCHANGED <<st, lock, cconn, nconn, rpc, rcancel, rconn, rwake, avail, q, ppc, pcancel, clpc, clwake,
+                 now, feeds, eofs, spawned>>
 
 ----------------------------------------------------------------------------
 (* _receive_loop; a receive task is named after the connection it was created for *)
@@ -376,7 +395,7 @@ SWake ==
   /\ UNCHANGED <<st, lock, ck, cconn, cwake, cs, nconn, writer, rpc, rcancel, rconn, rwake, avail, q, ppc, pcancel,
                  clpc, clwake, refusals, feeds, eofs, sconn>>
 
-Client == \/ \E i \in Insts : UserConnect(i) \/ SpawnedStart(i) \/ COpened(i) \/ COpenFailed(i) \/ CWake(i)
+Client == \/ \E i \in Insts : UserConnect(i) \/ SpawnedStart(i) \/ COpened(i) \/ COpenFailed(i) \/ CCfgFail(i) \/ CWake(i)
           \/ \E r \in Conns : RStart(r) \/ RPacket(r) \/ RFault(r) \/ RCancelled(r) \/ RWake(r)
           \/ PGet \/ PGetLast \/ PCancelled \/ CallClose \/ ClWake
 Env == \E c \in Conns : GwAccept(c) \/ GwRefuse(c) \/ Feed(c) \/ Eof(c)
